@@ -1,7 +1,7 @@
 import Qryn.Proofs.ReadCode
 import Qryn.Proofs.ReadPipe
 import Qryn.Proofs.ReadPipeH
-import Qryn.ReadSide.Census
+import Qryn.Proofs.ReadCensus
 /-! # C12 — no query can crash, hang or leak work on the read side   (PARTIAL: bookkeeping proved, runtime explored)
 
 Property theorems only. Models: `Qryn.ReadSide` (Params.lean: controllers' parameter handling, `FixPeriodPlanner`,
@@ -106,10 +106,7 @@ open Qryn.ReadSide.Census in
     reason string of a `contract`, `harmless`, `sizedBy`, `mapAccess` or `drainedBy` classification. -/
 theorem fault_site_census :
     censusMatches unrecovered reviewed = true ∧
-    ReadGoroutines.externsUnion = reviewedExterns.map (·.1) := by
-  constructor
-  · decide +kernel
-  · decide +kernel
+    ReadGoroutines.externsUnion = reviewedExterns.map (·.1) := ⟨census_checked, externs_checked⟩
 
 open Qryn.ReadSide.Census in
 /-- the un-recovered goroutines of the older, narrower inventory (`goroutine_inventory`) are among those of the census -/
@@ -123,7 +120,7 @@ open Qryn.ReadSide.Census in
     until close, or leaves a drainer behind — and not the context. (Scan/ScanMatrix poll `ctx.Done()` between rows
     only to stop early.) -/
 theorem producers_rely_on_drain :
-    ∀ g ∈ ReadGoroutines.goroutines, (sendProfile g).2.2 = 0 := by decide +kernel
+    ∀ g ∈ ReadGoroutines.goroutines, (sendProfile g).2.2 = 0 := no_send_selects_done
 
 /-- what the body of a handler's receive loop may call without the handler leaving a drain behind: the response
     writer, the JSON encoder on strings / flat structs, `append`, `make`, printing — nothing that walks stored data -/
